@@ -289,6 +289,56 @@ def _worker(arg):
     return n, bad, len(exp_msgs), exp_ref is not None, len(outcomes)
 
 
+def _node_worker(items):
+    """the same streams through a real node's socket-event handling (LocalPeer.handle_remote_peer_selector_event over the
+    fake socket / selector): the sender closes the connection right after its last byte - before the node has read anything,
+    after it has read part, or after it has read everything.  Whatever was sent before the close is extracted as if nothing
+    had been closed"""
+    from .. import seams, simnet
+    from skepticoin.coinstate import CoinState
+    net = simnet.Net(seams.Clock(1_700_000_000))
+    net.install()
+    import skepticoin.networking.remote_peer as rp
+    rp.MAX_MESSAGE_SIZE = MAXLEN
+    bad = []
+    n = 0
+    for name, stream in items:
+        exp_msgs, exp_ref = reference_framer(stream, MAXLEN)
+        if exp_ref is not None:
+            continue
+        cutpoints = sorted({0, len(stream) // 3, len(stream) - 1, len(stream)} | {c for c in (1024, 2048) if c < len(stream)})
+        for read_before_close in cutpoints:
+            for lst in (net.escaped, net.dialling, net.connections, net.nodes):
+                lst.clear()
+            net.listeners.clear()
+            net._eph = 40000
+            node = simnet.SimNode(net, 'N', '10.0.0.1', CoinState.zero())
+            s = simnet.FakeSocket(net, None)
+            s.local = ('7.7.7.7', 50001)
+            s.remote = node.lsock.local
+            node.lsock.backlog.append(s)
+            node.accept()
+            peer = node.peer_for(s.peer)
+            rec = Recorder()
+            peer.handle_message_received = rec.handle_message_received
+            # the node reads `read_before_close` bytes (1024 per event) while only those have arrived; then the rest arrives
+            # together with the end of the stream
+            s.send(stream[:read_before_close])
+            node.deliver(s.peer)
+            s.send(stream[read_before_close:])
+            s.close()
+            for _ in range(len(stream) // 1024 + 8):
+                if s.peer not in node.lp.selector.get_map():
+                    break
+                node.read_event(s.peer)
+            n += 1
+            if rec.got != exp_msgs and len(bad) < 4:
+                bad.append(('framing-messages-before-close', "stream %s (%d bytes): the sender closes right after its last byte, the node "
+                            "having read %d bytes before: %d message(s) extracted, %d were sent" % (
+                                name, len(stream), read_before_close, len(rec.got), len(exp_msgs)), name, [read_before_close]))
+    return n, bad
+
+
 def run(ctx):
     from .. import seams
     import skepticoin.networking.remote_peer as rp
@@ -305,6 +355,12 @@ def run(ctx):
         random.Random(ctx.seed).shuffle(jobs)
     jobs.sort(key=lambda j: -len(j[1]) if j[2] else 0)
     res = ctx.pmap(_worker, jobs)
+    node_items = [(nm, s_) for nm, s_ in sts if not nm.startswith('max:') and len(s_) < 80000]
+    nres = ctx.pmap(_node_worker, [node_items[i::16] for i in range(16)])
+    ctx.cov['streams_through_a_real_nodes_socket_events_with_close'] = sum(r[0] for r in nres)
+    for cnt, nbad in nres:
+        for key, what, name, cuts in nbad:
+            ctx.violation(key, what, {'name': name, 'cuts': cuts, 'node': True})
     n = sum(r[0] for r in res)
     for r in res:
         for key, what, name, cuts in r[1]:
@@ -330,6 +386,8 @@ def replay(data, ctx):
         return [('constants', 'changed')]
     sts = dict(streams(type(ctx)(ctx.pid, 'thorough', 0)))
     s = sts[data['name']]
+    if data.get('node'):
+        return [(k, w) for k, w, _, _ in _node_worker([(data['name'], s)])[1]]
     small = data['name'].startswith('max:')
     rp.MAX_MESSAGE_SIZE = SMALL_MAX if small else MAXLEN
     exp_msgs, exp_ref = reference_framer(s, SMALL_MAX if small else MAXLEN)
